@@ -1,15 +1,35 @@
 (* C01 -- Validator accepts exactly the structurally conformant data-unit histories.
-   (work in progress: theorem list is being filled in; see Proofs/StreamProofs.v) *)
+   Property theorems only; each closed by `exact <lemma>`.  Model: Model/Stream.v (hand model, tie C),
+   Gen/Version.v + Gen/ParseCodes.v (tie T).  The pattern matchers are abstract automata. *)
 From Coq Require Import ZArith List Bool.
-From VC2 Require Import Base.PyZ Model.Stream.
+From VC2 Require Import Base.PyZ Model.Stream Proofs.StreamProofs.
 Import ListNotations.
 Open Scope Z_scope.
 
-(* partial: placeholder while the refinement proof is being completed: an empty stream is accepted
-   by any instantiation of the matchers *)
-Theorem C01_empty_stream_partial : forall gst gstart gstep gcomplete lst lstart lstep lcomplete known pinned,
-  run gst gstart gstep gcomplete lst lstart lstep lcomplete known pinned [] = Accept.
-Proof. exact (fun _ _ _ _ _ _ _ _ _ _ => eq_refl). Qed.
+Section C01.
+  (* any generic matcher, any family of level matchers, any Levels enum ... *)
+  Variable gst : Type.
+  Variable gstart : gst.
+  Variable gstep : gst -> symbol -> option gst.
+  Variable gcomplete : gst -> bool.
+  Variable lst : Type.
+  Variable lstart : Z -> lst.
+  Variable lstep : Z -> lst -> symbol -> option lst.
+  Variable lcomplete : Z -> lst -> bool.
+  Variable level_known : Z -> bool.
+  (* ... such that the generic pattern starts with a sequence header and every level's pattern
+     admits one first (checked on the real Matcher's automata by the correspondence run) *)
+  Hypothesis Hgen : gen_first_is_seqhdr_b gstart gstep = true.
+  Hypothesis Hlvl : forall l, level_known l = true -> lvl_accepts_seqhdr_b lstart lstep l = true.
+
+  (* Every rejection is reported as a conformance error: for ANY stream of data units (any kinds,
+     order, numbers, offsets; `units_valid` is more than is needed: a slice-bearing fragment has a
+     positive slice count) the repaired validator never ends in a non-conformance exception. *)
+  Theorem C01_rejections_are_conformance_errors : forall us,
+    units_valid level_known us = true ->
+    forall e, run gst gstart gstep gcomplete lst lstart lstep lcomplete level_known false us <> VCrash e.
+  Proof. exact (no_crash_valid gst gstart gstep gcomplete lst lstart lstep lcomplete level_known Hgen Hlvl). Qed.
+End C01.
 
 Example C01_example : True.
 Proof. exact I. Qed.
